@@ -179,7 +179,9 @@ fn totality(rng: &mut Rng, ctx: &mut Ctx) {
     let status_bytes: Option<Vec<u8>> = match status_kind {
         0 => None,
         1 => Some(rng.range(0, 16).to_string().into_bytes()),
-        2 => Some(rng.pick(&["17", "99", "100", "-1", "00", "01", "016", " 1", "1 ", "+1", "1.0", "", "0x1", "١"]).as_bytes().to_vec()),
+        2 if rng.bool() => Some(rng.pick(&["17", "99", "100", "-1", "00", "01", "016", " 1", "1 ", "+1", "1.0", "", "0x1", "١", "255", "256", "4294967296", "18446744073709551616"]).as_bytes().to_vec()),
+        // every two-digit (and some three-digit) number above the last code
+        2 => Some(rng.range(17, 130).to_string().into_bytes()),
         3 => Some(rng.bytes_range(0, 6).into_iter().map(|b| if b == b'\n' || b == b'\r' || b == 0 || b == 0x7f || (b < 0x20 && b != b'\t') { b'?' } else { b }).collect()),
         _ => Some(rng.range(0, 16).to_string().into_bytes()),
     };
